@@ -52,6 +52,9 @@ type c14Rule struct {
 	Mode                  string // t: n c
 	CVal, Shift, Interval int64
 	Ops                   []*c14Rule
+	// generator only (not part of the case line): the timestamp the leaf will parse from the event
+	aimLhs int64
+	hasAim bool
 }
 
 var c14OpName = map[string]string{"eq": "equal", "co": "contains", "ca": "contains_any", "pr": "prefix", "su": "suffix", "re": "regex"}
